@@ -340,7 +340,8 @@ def _felica(ck, rng, T, add, rb, D, F, fake_os, tt3_sony):
             auth_real(t, key, rc)
             clean = [r for (_, _, r) in air.trace]
             for xi, frame in enumerate(clean):
-                budget = (8 * len(frame)) if (T or base == 0) else 48
+                # quick tier: every bit of the two MAC-carrying read responses of the first base case, samples elsewhere
+                budget = (8 * len(frame)) if (T or (base == 0 and xi in (1, 4))) else 40
                 for kind, fn, pos in response_masks(rng, frame, T, budget):
                     tag, air, t = fresh(lite_s, F.key_block(tagkey), Tamper({("r", xi): fn}))
                     real = auth_real(t, key, rc)
@@ -410,7 +411,7 @@ def _felica(ck, rng, T, add, rb, D, F, fake_os, tt3_sony):
         add("read_with_mac", "lite.rwmcmd %s %s" % (hx(idm), hx(bytes(blocks))), "ok " + hx(cmd), ("rwmcmd", tuple(blocks)), True, "read:command")
         add("read_with_mac", "lite.rwm %s %s %s %s %s" % (hx(idm), hx(sk), hx(iv), hx(bytes(blocks)), hx(frame)), real,
             ("rwm", key, rc, tuple(blocks), frame), False, "read:clean")
-        mods = list(response_masks(rng, frame, T, 8 * len(frame) if (T or base < 2) else 64))
+        mods = list(response_masks(rng, frame, T, 8 * len(frame) if (T or base < 1) else 96))
         dlen = 16 * nblk
         if nblk >= 2:                                      # whole blocks exchanged / duplicated: more than one group changes
             def swap(f, dlen=dlen):
